@@ -30,6 +30,8 @@ PROP = {
     "assumptions": [
         "one session per Terminal, driven from the loop thread; the loop is drained (a few passes) before the service, the Terminal and the loop are destroyed, in that order",
         "SIGPIPE is ignored or handled by the application (as tbox::main does): a client that disconnects while a reply is being written must not kill the process through the default SIGPIPE action",
+        "the application may deleteNode() / umountNode() any directory except the root between two loop passes (outside callbacks), also the one a session currently sits in",
+        "half of the cases run with a log channel installed (LogAddPrintfFunc) that reads every byte of every record",
         "command nodes may call Session::send / isValid / endSession and TerminalNodes::createDirNode / mountNode / umountNode / deleteNode of OTHER nodes; a node never deletes itself while it runs",
         "(b) every key arrives whole inside one segment; a bare CR counts as Enter only as the last byte of a segment; keys are printable ASCII without ; ' \" / # > $ % and Enter, Backspace, Delete, Left, Right, Home, End, Up, Down",
         "(b) reference rules taken from the real editor where the statement is silent (NOTES.md): a line is stored iff it is non-empty and is not `history` or a history reference; a successful !n / !-n / !! stores the line it ran; !n counts from 0 = oldest stored line, !-n from 1 = newest; Up/Down replace the draft, Down past the newest entry leaves an empty line; lines the reference does not predict (white space only, exit/quit, malformed ! forms, `history` with arguments, !-0) are rubbed out instead of entered",
@@ -46,7 +48,7 @@ META = {
                   "control sequences, shell syntax (; quotes ! paths), built-in commands, history references with integers at the int32/int64 edges, node names, long runs and raw noise, "
                   "cut into up to 8 (fuzzer) or dozens (generator) of segments - including segment sizes that make a telnet fragment end exactly at the end of the receive buffer's "
                   "allocation - are sent to one session of a Terminal whose tree has directories, cycles, deleted-but-mounted nodes, a null function, value nodes of helper.h, and "
-                  "commands that end the session, reply with 3 KB, and create / mount / umount / delete nodes at run time; the session is then closed in one of four ways (peer close, "
+                  "commands that end the session, reply with 3 KB, and create / mount / umount / delete nodes at run time; between segments the application itself deletes and/or umounts directories, including the one the session sits in, and relative names are resolved afterwards; half of the cases run with a log channel installed so that the terminal's log lines about client input (printf conversions included) are really formatted; the session is then closed in one of four ways (peer close, "
                   "service stop, half-close, close with the last segment still unread). Nothing may crash, trip ASan/UBSan, leak, hang or let an exception out of runLoop / onRecvString; "
                   "calls with the token of a deleted session must return false and do nothing. (b) Sessions of up to 36 lines typed key by key (commands for probe nodes with arguments, "
                   "blank lines, history, !n / !-n / !! with n at 0, size-1, size, -size, -size-1, +-2^31, +-2^32, 10^12, 2^64, recalls with Up/Down that are then edited, edits in the "
